@@ -64,6 +64,10 @@ SWAPS = [
     (r"\.enumerate\(\)", ".enumerate().skip(1)", "iter"), (r"\.to_lowercase\(\)", "", "method"), (r"\.trim\(\)", "", "method"), 
     (r"\bas i64\b", "as i32 as i64", "cast"), (r"\bas u64\b", "as u32 as u64", "cast"), (r"\bas usize\b", "as u8 as usize", "cast"), (r"\bas f64\b", "as f32 as f64", "cast"),
     (r"\bi64\b", "i32", "type"), (r"\bf64::INFINITY\b", "f64::MAX", "const"), (r"\bf64::NAN\b", "0.0", "const"),
+    # third phase: literals - other integers, floats, characters, bytes, short strings
+    (r"(?<![\w.])([3-9]|[1-9][0-9]+)(?![\w.])", lambda m: str(int(m.group(1)) + 1), "int+1"), (r"(?<![\w.])([3-9]|[1-9][0-9]+)(?![\w.])", lambda m: str(int(m.group(1)) - 1), "int-1"),
+    (r"(?<![\w.])([0-9]+\.[0-9]+)(?![\w])", lambda m: repr(float(m.group(1)) * 2.0), "float*2"),
+    (r"b'(.)'", lambda m: "b'%s'" % chr(ord(m.group(1)) + 1), "byte"), (r"'([^'\\])'", lambda m: "'%s'" % chr(ord(m.group(1)) + 1), "char"), (r"'\\\\'", "'/'", "char"),
     (r"\bis None\b", "is not None", "py"), (r"\bis not None\b", "is None", "py"), (r" or ", " and ", "py"), (r" and ", " or ", "py"), (r"\bnot ", "", "py"),
 ]
 
@@ -150,9 +154,16 @@ def list_mutants(repo, seed, max_per_file):
                     ctx = masked[max(0, m.start() - 2):m.end() + 2]
                     if kind.startswith("rel") and ("->" in ctx or "=>" in ctx or "<'" in ctx):
                         continue
-                    new = code[:m.start()] + m.expand(rep) + code[m.end():] + line[len(code):]
+                    new = code[:m.start()] + (rep(m) if callable(rep) else m.expand(rep)) + code[m.end():] + line[len(code):]
                     if new != line:
                         cands.append({"file": f, "line": i + 1, "col": m.start(), "kind": kind, "old": line.strip(), "new": new.strip(), "new_line": new})
+            if not f.endswith(".py") and not any(w in code for w in ("reason", "format!", "operation:", "expect(", "Error::", "println!", "about(", "help(", "author(", "version(")):
+                for m in re.finditer(r'"([^"\\]{1,12})"', code):
+                    lit = m.group(1)
+                    for repl in {lit.swapcase(), lit + "x", lit[:-1]}:
+                        if repl != lit:
+                            new = code[:m.start()] + '"' + repl + '"' + code[m.end():] + line[len(code):]
+                            cands.append({"file": f, "line": i + 1, "col": m.start(), "kind": "string", "old": line.strip(), "new": new.strip(), "new_line": new})
             st = code.strip()
             if not f.endswith(".py") and st.endswith(";") and not st.startswith(("let ", "return", "use ", "pub ", "const ", "static ", "type ", "}")) and "=" not in st.split("(")[0].replace("==", ""):
                 cands.append({"file": f, "line": i + 1, "col": 0, "kind": "delete", "old": line.strip(), "new": "// (statement deleted)", "new_line": ""})
